@@ -196,9 +196,13 @@ fn collect<'tcx>(tcx: TyCtxt<'tcx>, krate: &str) -> J {
                 o.set("vis", J::s(&vis_s(tcx, did)));
                 o.set("repr", J::s(&format!("{:?}", adt.repr())));
                 let mut vs = Vec::new();
-                for v in adt.variants().iter() {
+                let discrs: Vec<u128> = if adt.is_enum() { adt.discriminants(tcx).map(|(_, d)| d.val).collect() } else { Vec::new() };
+                for (vi, v) in adt.variants().iter().enumerate() {
                     let mut vo = J::obj();
                     vo.set("name", J::s(v.name.as_str()));
+                    if let Some(d) = discrs.get(vi) {
+                        vo.set("discr", J::n(*d as i128));
+                    }
                     let mut fs = Vec::new();
                     for f in v.fields.iter() {
                         let mut fo = J::obj();
